@@ -154,7 +154,8 @@ def _edges(desc):
                                                    stapled_to=s)
     if "call" in kinds:
         def f(a, b):
-            return a + b, a * 2
+            # (the body holds equal but distinct subexpressions: a + 1 twice)
+            return (a + 1) * b + (a + 1), a * 2
         r0, r1 = pt.trace_call(f, s, s)
         outs["call0"] = r0
         outs["call1"] = r1 + s
